@@ -134,7 +134,9 @@ def classify_diag(d, lines, info):
         kind = "call-precondition"
         if chosen:
             ln = chosen["line_start"]
-            labels = labels or ""
+            # a shim precondition carries its labels in a trailing comment (`requires ...   // C14.force ...`)
+            cl = lines[ln - 1] if 0 < ln <= len(lines) else ""
+            labels = labels or " ".join(re.findall(r"\bC\d\d\.[A-Za-z0-9_-]+", cl.split("//", 1)[1] if "//" in cl else ""))
             return {"fn": fn, "kind": kind, "labels": labels, "sidecar_line": sl, "callee_clause": (lines[ln - 1].strip() if 0 < ln <= len(lines) else ""),
                     "msg": msg + " :: " + (lines[ln - 1].strip()[:160] if 0 < ln <= len(lines) else ""), "line": ptline, "text": (lines[ptline - 1].strip() if ptline else "")}
     if kind == "implicit" and ptline:
